@@ -2089,7 +2089,8 @@ def preprocess_file(
         def_args, sub = def_value
         def_args = def_args.split(",")
         regex = re.compile(rf"\b{def_name}\s*\({','.join(['(.*)']*len(def_args))}\)")
-
+        # The body becomes a replacement template: keep its backslashes literal
+        sub = sub.replace("\\", "\\\\")
         for i, arg in enumerate(def_args, start=1):
             sub = re.sub(rf"\b({arg.strip()})\b", rf"\\{i}", sub)
 
@@ -2307,6 +2308,9 @@ def preprocess_file(
 
             if isinstance(def_regex, tuple):
                 def_regex, value = def_regex
+            else:
+                # Insert the macro body verbatim (no template escapes)
+                value = value.replace("\\", "\\\\")
 
             line_new, nsubs = def_regex.subn(value, line)
             if nsubs > 0:
